@@ -70,7 +70,7 @@ func runRouting(e *Env, params bool) {
 		"the reference matcher and the 11 class regexes are the trusted statement of the documented semantics",
 		"handlers treat Params as read-only",
 	}
-	nTables := e.N(4000, 60000)
+	nTables := e.N(4000, 400000)
 	e.RunCases("tables", nTables, 0, func(t *T) { routingCase(t, params) })
 	if !params {
 		e.Require("probes.multi_qualifier", 50)
